@@ -938,6 +938,11 @@ func nodeSelfCheck(n datamodel.Node, problems map[string]bool) {
 			probe("list-LookupBySegment", want, func() (datamodel.Node, error) { return n.LookupBySegment(datamodel.PathSegmentOfInt(ii)) })
 		}
 		probe("list-LookupByIndex-past-the-end", "", func() (datamodel.Node, error) { return n.LookupByIndex(count) })
+		// negative indexes: what a path segment "-1" or an index selector from untrusted data asks for
+		probe("list-LookupByIndex-negative", "", func() (datamodel.Node, error) { return n.LookupByIndex(-1) })
+		probe("list-LookupByIndex-most-negative", "", func() (datamodel.Node, error) { return n.LookupByIndex(-1 << 63) })
+		probe("list-LookupBySegment-negative-numeral", "", func() (datamodel.Node, error) { return n.LookupBySegment(datamodel.PathSegmentOfString("-1")) })
+		probe("list-LookupByNode-negative", "", func() (datamodel.Node, error) { return n.LookupByNode(basicnode.NewInt(-1)) })
 	}
 }
 
